@@ -601,15 +601,16 @@ class Gen:
             self.hook_names = [f"H{i}" for i in range(1, r.randint(2, 3) + 1)]
         for n in self.names[1:]:
             if self.p("params") or ("." in n and self.f.get("params", 0) > 0 and r.random() < 0.6):
-                k = r.randint(1, 3 if self.p("long_params") else 2)
+                k = r.randint(1, 4 if self.p("long_params") else 2)
                 ps = []
-                pool = ["p", "q", "r2"] + (["a"] if self.p("shadow") else [])
+                pool = ["p", "q", "r2", "u"] + (["a"] if self.p("shadow") else [])
                 r.shuffle(pool)
                 for j in range(k):
                     default = None
                     if j > 0 and r.random() < 0.6:
                         # a default may use ANY earlier parameter, also one that itself took its default
-                        default = r.choice([str(r.randint(0, 5)), f"{ps[0][0]} * 2", "a + 1", f"{ps[j - 1][0]} + 1", f"{ps[0][0]} + {ps[j - 1][0]}"])
+                        default = r.choice([str(r.randint(0, 5)), f"{ps[0][0]} * 2", "a + 1", f"{ps[j - 1][0]} + 1", f"{ps[0][0]} + {ps[j - 1][0]}",
+                                            f"{ps[j - 1][0]} * {ps[max(0, j - 2)][0]}"])
                     elif j == 0 and r.random() < 0.2:
                         default = str(r.randint(0, 5))
                     if ps and ps[-1][1] is not None and default is None:
